@@ -180,6 +180,12 @@ pub fn gen_in(rng: &mut Rng, mode: GameMode, n: u32) -> In {
 }
 
 pub fn build<'a>(attrs: &DifficultyAttributes, mode: GameMode, i: &In) -> Performance<'a> {
+    build_on(Performance::new(attrs.clone()), mode, i)
+}
+
+/// Apply the input `i` (interpreted for `mode`) to a performance builder that was created by the caller
+/// (from attributes, from a map, from a map that is still to be converted ...).
+pub fn build_on<'a>(start: Performance<'a>, mode: GameMode, i: &In) -> Performance<'a> {
     let mut d = Difficulty::new();
     if i.cl {
         d = d.mods(
@@ -200,7 +206,7 @@ pub fn build<'a>(attrs: &DifficultyAttributes, mode: GameMode, i: &In) -> Perfor
     if let Some(p) = i.passed {
         d = d.passed_objects(p);
     }
-    let mut p = Performance::new(attrs.clone()).difficulty(d);
+    let mut p = start.difficulty(d);
     if let Some(a) = i.acc {
         p = p.accuracy(a);
     }
